@@ -3,6 +3,7 @@ package chat
 import (
 	"bytes"
 	"errors"
+	"fmt"
 	"io"
 	"strconv"
 
@@ -29,6 +30,7 @@ func (m Message) MarshalNBT(w io.Writer) error {
 	var buf bytes.Buffer
 	enc := nbt.NewEncoder(&buf)
 	enc.NetworkFormat(true)
+	m.With = nbtArgs(m.With) // m is a copy: the caller's arguments are left alone
 	var err error
 	if m.Translate != "" {
 		err = enc.Encode(translateMsg(m), "")
@@ -40,6 +42,27 @@ func (m Message) MarshalNBT(w io.Writer) error {
 	}
 	_, err = w.Write(buf.Bytes()[1:]) // skip the tag type byte
 	return err
+}
+
+// nbtArgs returns the translation arguments as they are written in the NBT form. The elements of a
+// TagList have one type: when components and bare values are mixed, the bare values are written as
+// text components (as vanilla does). Any other list is returned as it is.
+func nbtArgs(args TranslateArgs) TranslateArgs {
+	out := make(TranslateArgs, len(args))
+	comps := 0
+	for i, v := range args {
+		switch v.(type) {
+		case Message, *Message:
+			out[i] = v
+			comps++
+		default:
+			out[i] = Text(fmt.Sprint(v))
+		}
+	}
+	if comps == 0 || comps == len(args) {
+		return args
+	}
+	return out
 }
 
 func (m *Message) UnmarshalNBT(tagType byte, r nbt.DecoderReader) error {
